@@ -1,9 +1,14 @@
 package pool
 
 import (
+	"errors"
 	"fmt"
 	"strings"
 )
+
+// ErrConnectionClosed is returned when a host registers over a connection
+// that has ended in the meantime.
+var ErrConnectionClosed = errors.New("connection closed before the host was registered")
 
 // NoHostNodesError is returned when the pool does not have any hosts available.
 type NoHostNodesError struct {
